@@ -82,3 +82,43 @@ H_ENTRY(h_vtmf_open) {
   vf_assert(ta->TMCG_TypeOfCard(c2, A) == T, "a card masked by both players opens to the type it was created with");
   H_END();
 }
+
+// ---------------------------------------------------------------- quadratic-residue encoding, two players, real arithmetic
+// toy Blum moduli m_k = p_k*q_k (p,q = 3 mod 4) with a non-residue y_k of Jacobi symbol +1; card of type T created openly (or
+// privately), masked by player 0 and again by player 1; every player decodes its own row with its secret key
+// (TMCG_SelfCardSecret = quadratic-residuosity test by the factors); the XOR of all rows must be T.
+#include "TMCG_SecretKey.hh"
+#include "mpz_sqrtm.hh"
+#ifndef H_QRW
+#define H_QRW 1
+#endif
+static const unsigned long qr_p[2] = {3, 3}, qr_q[2] = {7, 11}, qr_y[2] = {5, 2};    // m = 21, 33
+static TMCG_SecretKey *mksk(unsigned k) {
+  TMCG_SecretKey *s = (TMCG_SecretKey*)::operator new(sizeof(TMCG_SecretKey));   // only the integer members are used
+  mpz_init_set_ui(s->p, qr_p[k]); mpz_init_set_ui(s->q, qr_q[k]); mpz_init_set_ui(s->m, qr_p[k] * qr_q[k]); mpz_init_set_ui(s->y, qr_y[k]);
+  return s;
+}
+H_ENTRY(h_qr_open) {
+  SchindelhauerTMCG *tmcg = new SchindelhauerTMCG(2, 2, H_QRW);
+  TMCG_PublicKeyRing ring(2);
+  for (unsigned k = 0; k < 2; ++k) { mpz_set_ui(ring.keys[k].m, qr_p[k] * qr_q[k]); mpz_set_ui(ring.keys[k].y, qr_y[k]); }
+  TMCG_SecretKey *sk0 = mksk(0), *sk1 = mksk(1);
+  size_t T = (size_t)vf_nondet_below(1UL << H_QRW);
+  bool tap = vf_nondet_u8() & 1;
+  TMCG_Card c1(2, H_QRW), c2(2, H_QRW); TMCG_CardSecret s1(2, H_QRW), s2(2, H_QRW);
+#ifdef H_PRIVATE
+  tmcg->TMCG_CreatePrivateCard(c1, s1, ring, 0, T);                                  // created and masked by player 0 in one step
+#else
+  TMCG_Card c0(2, H_QRW);
+  tmcg->TMCG_CreateOpenCard(c0, ring, T);
+  tmcg->TMCG_CreateCardSecret(s1, ring, 0); tmcg->TMCG_MaskCard(c0, c1, s1, ring, tap);   // player 0 masks
+#endif
+  tmcg->TMCG_CreateCardSecret(s2, ring, 1); tmcg->TMCG_MaskCard(c1, c2, s2, ring, tap);   // player 1 masks again
+  TMCG_CardSecret open(2, H_QRW);
+  tmcg->TMCG_SelfCardSecret(c2, open, *sk0, 0);
+  tmcg->TMCG_SelfCardSecret(c2, open, *sk1, 1);
+  vf_assert(tmcg->TMCG_TypeOfCard(open) == T, "QR encoding: a card masked by both players opens to the type it was created with");
+  // every component stays a unit modulo its player's modulus (otherwise the residuosity test is meaningless)
+  for (unsigned k = 0; k < 2; ++k) for (unsigned w = 0; w < H_QRW; ++w) { Z g; mpz_gcd(g, &c2.z[k][w], ring.keys[k].m); vf_assert(mpz_cmp_ui(g, 1) == 0, "masked components are units"); }
+  H_END();
+}
